@@ -43,9 +43,12 @@ type XType struct {
 
 // XNode is an expected (or observed) instantiated schema node.
 type XNode struct {
-	Name      string
-	Kind      string
-	NS        string // name of the module whose namespace the node has
+	Name string
+	Kind string
+	NS   string // name of the module whose namespace the node has
+	// NSURI: the namespace itself (observed: Entry.Namespace().Name; expected: filled in by the comparing check
+	// from the namespace statement of module NS; "" = not compared)
+	NSURI     string `json:",omitempty"`
 	Config    *bool  // explicit config statement
 	Mandatory *bool
 	Default   []string
